@@ -76,7 +76,7 @@ func c18Scenarios(c *vlib.Ctx) []c18Scenario {
 }
 
 func runC18() {
-	c := vlib.Start("C18")
+	c := vlib.Start(os.Args[1])
 	defer c.Finish()
 	scs := c18Scenarios(c)
 	lo, hi := c.Slice(len(scs))
